@@ -171,6 +171,7 @@ static int tglfMode(int count, uint64_t seed, const char *outFile)
 
 #include "h_dialect_peel.h"
 #include "h_dialect_hola.h"
+#include "h_dialect_planar.h"
 
 int main(int argc, char **argv)
 {
@@ -179,6 +180,7 @@ int main(int argc, char **argv)
     if (m == "sepco") return sepcoMode(argv[2]);
     if (m == "tglf" && argc >= 5) return tglfMode(atoi(argv[2]), strtoull(argv[3], 0, 10), argv[4]);
     if (m == "peel" && argc >= 4) return peelMode(argv[2], argv[3]);
+    if (m == "planar" && argc >= 4) return planarMode(argv[2], argv[3]);
     if (m == "hola" && argc >= 4) return holaMode(argv[2], argv[3], argc > 4 ? atol(argv[4]) : 0);
     return 2;
 }
